@@ -253,4 +253,66 @@ var propSpecs = map[string]PropSpec{
 		Symbolic:   []string{"probe tail bytes"},
 		Enumerated: []string{"controller type", "Uses", "base path", "map order", "method"},
 	},
+	"C17": {
+		ID: "C17",
+		Harnesses: []HarnessSpec{
+			{Pkg: "rux", Name: "verifHarness_C17_static", Quick: map[string]int{"L": 5}, Thorough: map[string]int{"L": 8}, NCfgQ: 4 * 3 * 2 * 2, SampleQ: 20,
+				Covers: []string{"C17 file served", "C17 nothing served"}},
+		},
+		Assumptions: []string{
+			"'serving a file' is a boundary event of the engine's stubs for http.FileServer(fs).ServeHTTP, http.ServeFile, http.ServeContent, os.Open, os.ReadFile, os.Stat; the check decides which name reaches which boundary",
+			"trusted by contract: net/http's file server opens path.Clean(\"/\"+r.URL.Path) through the given FileSystem and http.Dir confines names to its root; symlinks, case folding and the OS are outside the claim",
+			"http.StripPrefix is interpreted from the standard library's own source; the request's URL.Path bytes are arbitrary (every percent-encoding of a byte sequence is covered by making the decoded bytes symbolic)",
+			"native replay serves a real temporary tree with a secret beside the root and compares the body with the secret",
+		},
+		Bounds:     map[string]string{"L": "request path = prefix + 0..5 (quick) / 0..8 (thorough) symbolic bytes, or 0..L arbitrary bytes without the prefix", "T": "StaticDir / StaticFiles / StaticFS / StaticFile x prefixes /s, /assets, /a.b x extension lists css, css|js x cache on/off (20 of 48 sampled per quick run)"},
+		Symbolic:   []string{"request path bytes incl. NUL, back-slash, dots, slashes, >= 0x80"},
+		Enumerated: []string{"handler kind", "prefix", "extension list", "cache"},
+	},
+	"C18": {
+		ID: "C18",
+		Harnesses: []HarnessSpec{
+			{Pkg: "binding", Name: "verifHarness_C18_auto", Covers: []string{"C18 source query", "C18 source form", "C18 source multipart", "C18 source json", "C18 source xml", "C18 source error", "C18 validated"}},
+		},
+		Assumptions: []string{
+			"decidable part only: source selection and 'successful bind implies validation'; the decoders (encoding/json, encoding/xml, formam), gookit/validate and Request.ParseForm/ParseMultipartForm/URL.Query are boundary stubs that record an event and return a symbolic error",
+			"NOT claimed (cannot be encoded within reach): bind(encode(v)) == v and 'malformed input yields an error, never a panic' - reflection-driven library code",
+			"Content-Type = type '/' subtype [parameters] with the subtype either one of seven concrete names or 1..4 symbolic lower-case letters; plus the empty string and a slash-less string; oracle decides by the subtype",
+		},
+		Bounds:     map[string]string{"ct": "4 types x (7 concrete subtypes + symbolic subtype of 1..4 letters) x 3 parameter suffixes, empty and malformed", "methods": "9 methods + 1 foreign", "validator": "on/off"},
+		Symbolic:   []string{"subtype letters", "decoder / parser / validator outcomes"},
+		Enumerated: []string{"method", "type", "concrete subtype", "parameters", "validator on/off"},
+	},
+	"C19": {
+		ID: "C19",
+		Harnesses: []HarnessSpec{
+			{Pkg: "rux", Name: "verifHarness_C19_helpers", Covers: []string{"C19 helper"}},
+			{Pkg: "render", Name: "verifHarness_C19_renderers", Covers: []string{"C19 raw renderer", "C19 encoding renderer", "C19 encoder error returned"}},
+			{Pkg: "render", Name: "verifHarness_C19_auto", Covers: []string{"C19 negotiation"}},
+		},
+		Assumptions: []string{
+			"json/xml encoders are boundary stubs writing an uninterpreted rendering E(obj) or returning a symbolic error; 'decodes back to the value' is checked only in the native replay (codec internals are outside the encoding)",
+			"Stream (io.Copy) and the file helpers are not covered here (C17 covers which file names reach the boundary)",
+			"Accept = list of 0..3 tokens from eight (five supported MIME types, an unsupported one, empty, one with a q parameter); text/html counts as supported (handled, nothing rendered) as in the code",
+		},
+		Bounds:     map[string]string{"status": "symbolic in 100..599", "payload": "0..3 symbolic bytes", "preset": "Content-Type absent or one of three preset values"},
+		Symbolic:   []string{"status code", "payload bytes", "encoder outcome"},
+		Enumerated: []string{"helper / renderer", "preset Content-Type", "Accept token list"},
+	},
+	"C20": {
+		ID: "C20",
+		Harnesses: []HarnessSpec{
+			{Pkg: "handlers", Name: "verifHarness_C20_basicAuth", Covers: []string{"C20 auth passed", "C20 auth 401", "C20 auth 403"}},
+			{Pkg: "handlers", Name: "verifHarness_C20_methodOverride", Covers: []string{"C20 method rewritten", "C20 override tried"}},
+			{Pkg: "handlers", Name: "verifHarness_C20_wrappers", Covers: []string{"C20 wrappers"}},
+		},
+		Assumptions: []string{
+			"Request.BasicAuth() is stubbed by an arbitrary (user, password, ok) triple - base64/header parsing is net/http's; every malformed header is the case ok=false (natively a malformed header is also sent)",
+			"Request.FormValue is stubbed by a symbolic string (natively r.Form is pre-populated); override values are ASCII",
+			"context.WithValue / Value are modelled by the engine (key equality)",
+		},
+		Bounds:     map[string]string{"accounts": "0..2 entries with symbolic 0..2-byte user names and passwords", "credentials": "0..2-byte user and password", "override": "0..6 symbolic bytes in the form field and in the header, 9 request methods", "wrappers": "lists of 1..5"},
+		Symbolic:   []string{"account map keys and values", "credentials", "override value bytes"},
+		Enumerated: []string{"number of accounts", "gate position", "request method", "wrapper count"},
+	},
 }
